@@ -80,8 +80,10 @@ class Finder:
         """
         # shortcut if Sid is not a search
         sid = Sid(search_sid)
-        # (a last value that is an extension alias, eg. "maya", still needs unfolding)
-        if sid and not sid.is_search() and sid.get(sid.keytype) not in conf.extension_alias:
+        # (a last value that is an extension alias, eg. "maya", still needs unfolding,
+        # and so does a search whose symbols, eg. "/**", were overwritten by its own query)
+        is_search = sid.is_search() or any(s in str(search_sid) for s in conf.search_symbols)
+        if sid and not is_search and sid.get(sid.keytype) not in conf.extension_alias:
             generator = self.do_find([sid], as_sid=as_sid)
         else:
             search_sids = unfold_search(search_sid)
